@@ -89,7 +89,17 @@ func ruleC25(c *Ctx, r *Report) {
 				if b.Op == token.GTR {
 					lenSide = b.X
 				}
-				if !isLenOfField(lenSide, rrq) {
+				// count-down form: `for left := len(q); left > 0; left--`
+				countDown := false
+				if ph, isPhi := b.X.(*ssa.Phi); isPhi && b.Op == token.GTR && isIntConst(b.Y, 0) && len(ph.Edges) == 2 {
+					for k, e := range ph.Edges {
+						o := ph.Edges[1-k]
+						if sub, isSub := o.(*ssa.BinOp); isSub && sub.Op == token.SUB && sub.X == ssa.Value(ph) && isIntConst(sub.Y, 1) && isLenOfField(e, rrq) {
+							countDown = true
+						}
+					}
+				}
+				if !countDown && !isLenOfField(lenSide, rrq) {
 					return
 				}
 				if dominatedByCond(nc, b, true) {
@@ -244,6 +254,50 @@ func ruleC26(c *Ctx, r *Report) {
 				if dominatedByCond(ret, l, true) {
 					dom = true
 				}
+			}
+			if !dom {
+				// or: every value that may be true is computed only under sw.enabled==true (named result assigned
+				// inside `if sw.enabled {…}`, false otherwise)
+				all := len(vals) > 0
+				// loads of the (defer-spilled) result cell are resolved to the stores that reach them
+				var expand func(v ssa.Value, depth int) []ssa.Value
+				expand = func(v ssa.Value, depth int) []ssa.Value {
+					var out []ssa.Value
+					for _, lf := range phiLeaves(v) {
+						if u, ok := lf.(*ssa.UnOp); ok && u.Op == token.MUL && depth > 0 {
+							if cell, ok := u.X.(*ssa.Alloc); ok {
+								if sts, _, ok := reachingStores(cell, u); ok {
+									for _, st := range sts {
+										out = append(out, expand(st.Val, depth-1)...)
+									}
+									continue
+								}
+							}
+						}
+						out = append(out, lf)
+					}
+					return out
+				}
+				for _, v := range vals {
+					for _, lf := range expand(v, 4) {
+						if b, isC := constBool(lf); isC && !b {
+							continue
+						}
+						in, isIn := lf.(ssa.Instruction)
+						under := false
+						if isIn {
+							for _, l := range loads {
+								if dominatedByCond(in, l, true) {
+									under = true
+								}
+							}
+						}
+						if !under {
+							all = false
+						}
+					}
+				}
+				dom = all
 			}
 			if dom {
 				r.ok("MP-C26b", name, cons, c.Pos(exitPos(ret)), "dominated by sw.enabled==true")
@@ -629,6 +683,13 @@ func ruleC27(c *Ctx, r *Report) {
 		case c.backendMethod("Slice", "checkBackendMasterStatus"):
 			r.ok(rule, name, "call:SetStatusUp@"+branchLabel(c, s.In), c.Pos(s.In.Pos()), "master checker: masters are never fused (TryFuse is reached from the replica selector only)")
 		default:
+			if why, ok := allowedVia(c, map[*ssa.Function]string{
+				noRec: "strategy-less checker: only reached for nodes without a recovery strategy (dispatch obligation)",
+				c.backendMethod("Slice", "checkBackendMasterStatus"): "master checker: masters are never fused (TryFuse is reached from the replica selector only)",
+			}, s.Fn); ok {
+				r.ok(rule, name, "call:SetStatusUp@"+branchLabel(c, s.In), c.Pos(s.In.Pos()), why)
+				continue
+			}
 			r.viol(rule, name, "call:SetStatusUp@"+branchLabel(c, s.In), c.Pos(s.In.Pos()), "node marked up in a function that neither receives the recovery strategy nor is a listed strategy-less checker")
 		}
 	}
@@ -669,44 +730,69 @@ func ruleC27(c *Ctx, r *Report) {
 			upd   *ssa.Function
 		}{{"hard", sf.hard, hardUpd}, {"gradual", sf.gradual, gradUpd}} {
 			cons := fmt.Sprintf("after-SetStatusDown#%d:%s:UpdateFuseTime", i+1, variant.label)
-			changedVal := d.(ssa.Value)
-			exits := searchExits(tryFuse, d, nil, SearchOpts{
-				Stop: func(in ssa.Instruction) bool {
-					cc := callCommon(in)
-					return cc != nil && callsFunc(cc, variant.upd)
-				},
-				EdgeOK: func(b *ssa.BasicBlock, i int) bool {
-					iff, ok := b.Instrs[len(b.Instrs)-1].(*ssa.If)
-					if !ok {
+			// the search is written over (function, changed-flag) so that it continues into a package-private helper the
+			// dispatch over the strategy was extracted into (the flag is followed through the call's arguments)
+			var search func(fn *ssa.Function, from ssa.Instruction, changedVal ssa.Value, depth int) []Exit
+			search = func(fn *ssa.Function, from ssa.Instruction, changedVal ssa.Value, depth int) []Exit {
+				var start *ssa.BasicBlock
+				if from == nil {
+					start = fn.Blocks[0]
+				}
+				return searchExits(fn, from, start, SearchOpts{
+					Stop: func(in ssa.Instruction) bool {
+						cc := callCommon(in)
+						if cc == nil {
+							return false
+						}
+						if callsFunc(cc, variant.upd) {
+							return true
+						}
+						h := staticCallee(cc)
+						if depth == 0 || h == nil || !c.InModule(h) || len(h.Blocks) == 0 || h.Object() == nil || h.Object().Exported() {
+							return false
+						}
+						var flag ssa.Value
+						for k, a := range cc.Args {
+							if changedVal != nil && stripValue(a) == changedVal && k < len(h.Params) {
+								flag = h.Params[k]
+							}
+						}
+						return len(search(h, nil, flag, depth-1)) == 0
+					},
+					EdgeOK: func(b *ssa.BasicBlock, i int) bool {
+						iff, ok := b.Instrs[len(b.Instrs)-1].(*ssa.If)
+						if !ok {
+							return true
+						}
+						// type-switch pruning: ok-edge of an assertion to another type, !ok edge of the assertion to this type
+						if ex, isEx := iff.Cond.(*ssa.Extract); isEx && ex.Index == 1 {
+							if ta, isTA := ex.Tuple.(*ssa.TypeAssert); isTA {
+								n := namedOf(ta.AssertedType)
+								if n == variant.typ {
+									return i == 0
+								}
+								return i == 1
+							}
+						}
+						// nil-case of the type switch (strategy == nil): not this variant
+						if bo, isB := iff.Cond.(*ssa.BinOp); isB && (bo.Op == token.EQL) && (isNilConst(bo.X) || isNilConst(bo.Y)) {
+							if _, isIface := bo.X.Type().Underlying().(*types.Interface); isIface {
+								return i == 1
+							}
+						}
+						// gradual policy: `if !changed { return }` (node was already down: the first fuse set the time) is accepted
+						if variant.label == "gradual" && changedVal != nil {
+							for _, ce := range condEdges(changedVal) {
+								if ce.If == iff && ce.Succ == i && !ce.Val {
+									return false
+								}
+							}
+						}
 						return true
-					}
-					// type-switch pruning: ok-edge of an assertion to another type, !ok edge of the assertion to this type
-					if ex, isEx := iff.Cond.(*ssa.Extract); isEx && ex.Index == 1 {
-						if ta, isTA := ex.Tuple.(*ssa.TypeAssert); isTA {
-							n := namedOf(ta.AssertedType)
-							if n == variant.typ {
-								return i == 0
-							}
-							return i == 1
-						}
-					}
-					// nil-case of the type switch (strategy == nil): not this variant
-					if bo, isB := iff.Cond.(*ssa.BinOp); isB && (bo.Op == token.EQL) && (isNilConst(bo.X) || isNilConst(bo.Y)) {
-						if _, isIface := bo.X.Type().Underlying().(*types.Interface); isIface {
-							return i == 1
-						}
-					}
-					// gradual policy: `if !changed { return }` (node was already down: the first fuse set the time) is accepted
-					if variant.label == "gradual" {
-						for _, ce := range condEdges(changedVal) {
-							if ce.If == iff && ce.Succ == i && !ce.Val {
-								return false
-							}
-						}
-					}
-					return true
-				},
-			})
+					},
+				})
+			}
+			exits := search(tryFuse, d, d.(ssa.Value), 1)
 			if variant.upd == nil {
 				r.undecided(rule, tfName, cons, c.Pos(d.Pos()), "UpdateFuseTime method not found")
 			} else if len(exits) == 0 {
@@ -790,7 +876,21 @@ func ruleC28(c *Ctx, r *Report) {
 		}
 	}
 	sort.Slice(checkers, func(i, j int) bool { return checkers[i].Name() < checkers[j].Name() })
-	for _, fn := range checkers {
+	masterChecker := c.backendMethod("Slice", "checkBackendMasterStatus")
+	for i, fn := range checkers {
+		// a checker whose probe round was extracted into a package-private helper is analysed at that helper
+		if len(callsIn(fn, func(cc *ssa.CallCommon) bool { return callsFunc(cc, sf.probe) })) == 0 {
+			for _, ci := range callsIn(fn, func(cc *ssa.CallCommon) bool {
+				h := staticCallee(cc)
+				return h != nil && c.InModule(h) && h.Object() != nil && !h.Object().Exported() && len(callsIn(h, func(x *ssa.CallCommon) bool { return callsFunc(x, sf.probe) })) > 0
+			}) {
+				if fn == masterChecker {
+					masterChecker = staticCallee(callCommon(ci))
+				}
+				fn = staticCallee(callCommon(ci))
+				checkers[i] = fn
+			}
+		}
 		name := c.FuncName(fn)
 		// probe result
 		var conn ssa.Value
@@ -839,7 +939,7 @@ func ruleC28(c *Ctx, r *Report) {
 	}
 	// replica checkers must each consult both triggers (sibling agreement)
 	for _, fn := range checkers {
-		if fn.Name() == "checkBackendMasterStatus" {
+		if fn == masterChecker {
 			continue
 		}
 		if len(callsIn(fn, func(cc *ssa.CallCommon) bool { return callsFunc(cc, sf.syncStatus) })) == 0 {
@@ -867,7 +967,7 @@ func (c *Ctx) mustReachOnEdges(r *Report, rule string, fn *ssa.Function, edges [
 		var loopBack bool
 		exits := searchExits(fn, nil, start, SearchOpts{
 			Stop: func(in ssa.Instruction) bool {
-				if cc := callCommon(in); cc != nil && callsFunc(cc, target) {
+				if cc := callCommon(in); cc != nil && (callsFunc(cc, target) || c.mustCallFn(staticCallee(cc), target, 2)) {
 					return true
 				}
 				if in == anchor { // came around the loop without the target
@@ -1352,4 +1452,29 @@ func ruleC27e(c *Ctx, r *Report) {
 	if n == 0 {
 		r.undecided(rule, "backend", "assign:strategy", "-", "no assignment of a fuse/recovery strategy found")
 	}
+}
+
+// mustCallFn: h is a package-private module function every path of which, from entry to any exit, passes a call of
+// target (directly or through such a helper, depth-bounded). Used so that "this edge must reach target()" rules accept
+// the target call extracted into a helper.
+func (c *Ctx) mustCallFn(h, target *ssa.Function, depth int) bool {
+	if h == nil || depth == 0 || !c.InModule(h) || len(h.Blocks) == 0 || h.Object() == nil || h.Object().Exported() {
+		return false
+	}
+	exits := searchExits(h, nil, h.Blocks[0], SearchOpts{
+		Stop: func(in ssa.Instruction) bool {
+			cc := callCommon(in)
+			return cc != nil && (callsFunc(cc, target) || c.mustCallFn(staticCallee(cc), target, depth-1))
+		},
+	})
+	return len(exits) == 0
+}
+
+// mustPassFn: h is a package-private module function every path of which, from entry to any exit, passes an
+// instruction accepted by pred.
+func (c *Ctx) mustPassFn(h *ssa.Function, pred func(in ssa.Instruction) bool, depth int) bool {
+	if h == nil || depth == 0 || !c.InModule(h) || len(h.Blocks) == 0 || h.Object() == nil || h.Object().Exported() {
+		return false
+	}
+	return len(searchExits(h, nil, h.Blocks[0], SearchOpts{Stop: pred})) == 0
 }
